@@ -3,7 +3,8 @@
  * select with a finite timeout that reported readiness, and optionally cap transfer sizes / inject EINTR.
  *
  * usage: pamh <cases-file>
- * case line (TAB separated): id user_hex pw_hex pwsrc opts sock wcap rcap eintr
+ * case line (TAB separated): id user_hex pw_hex pwsrc opts sock wcap rcap eintr wdelay_ms
+ *   wdelay_ms: sleep this long before the first write on the socket (models the process being descheduled)
  *   pwsrc: stack | conv | conv-fail | conv-null | conv-again | none(no authtok, use_first_pass)   user_hex "-" = pam_get_user fails
  *   opts: comma separated module options (without sock=), e.g. debug,try_first_pass,timeout=1
  * output line: id rc selects reads writes unguarded nonfinite maxsel_timeout_s elapsed_ms authtok_set
@@ -16,6 +17,7 @@
 #include <time.h>
 #include <unistd.h>
 #include <sys/select.h>
+#include <sys/socket.h>
 #include <sys/stat.h>
 #include <sys/types.h>
 #include <security/pam_modules.h>
@@ -73,7 +75,7 @@ int pam_prompt(pam_handle_t *pamh, int style, char **response, const char *fmt, 
 
 /* ---- syscall wrappers ---- */
 static long n_select, n_read, n_write, n_unguarded, n_nonfinite;
-static long wcap, rcap;
+static long wcap, rcap, wdelay_ms;
 static unsigned eintr_mask; /* bit0: first select, bit1: first write, bit2: first read get EINTR */
 static int ready_r[FD_SETSIZE], ready_w[FD_SETSIZE];
 static double max_sel_timeout;
@@ -81,6 +83,7 @@ static double max_sel_timeout;
 int __real_select(int nfds, fd_set *r, fd_set *w, fd_set *e, struct timeval *tv);
 ssize_t __real_read(int fd, void *buf, size_t n);
 ssize_t __real_write(int fd, const void *buf, size_t n);
+ssize_t __real_send(int fd, const void *buf, size_t n, int flags);
 
 static int is_sock(int fd) { struct stat st; return fd >= 0 && fstat(fd, &st) == 0 && S_ISSOCK(st.st_mode); }
 
@@ -109,10 +112,21 @@ ssize_t __wrap_read(int fd, void *buf, size_t n) {
 ssize_t __wrap_write(int fd, const void *buf, size_t n) {
   if (!is_sock(fd)) return __real_write(fd, buf, n);
   n_write++;
+  if (wdelay_ms > 0) { usleep((useconds_t)wdelay_ms * 1000); wdelay_ms = 0; }
   if (fd < FD_SETSIZE) { if (!ready_w[fd]) n_unguarded++; ready_w[fd] = 0; }
   if (eintr_mask & 2) { eintr_mask &= ~2u; errno = EINTR; return -1; }
   if (wcap > 0 && (long)n > wcap) n = (size_t)wcap;
   return __real_write(fd, buf, n);
+}
+
+/* send() on the socket is treated like write() (a repaired module uses send(..., MSG_NOSIGNAL)) */
+ssize_t __wrap_send(int fd, const void *buf, size_t n, int flags) {
+  n_write++;
+  if (wdelay_ms > 0) { usleep((useconds_t)wdelay_ms * 1000); wdelay_ms = 0; }
+  if (fd >= 0 && fd < FD_SETSIZE) { if (!ready_w[fd]) n_unguarded++; ready_w[fd] = 0; }
+  if (eintr_mask & 2) { eintr_mask &= ~2u; errno = EINTR; return -1; }
+  if (wcap > 0 && (long)n > wcap) n = (size_t)wcap;
+  return __real_send(fd, buf, n, flags);
 }
 
 static char *unhex(const char *h) {
@@ -128,10 +142,11 @@ int main(int argc, char **argv) {
   if (!f) return 2;
   char *line = NULL; size_t cap = 0;
   while (getline(&line, &cap, f) > 0) {
-    char *fields[9]; int nf = 0;
+    char *fields[10]; int nf = 0;
     char *p = line; line[strcspn(line, "\n")] = 0;
-    while (nf < 9) { fields[nf++] = p; char *t = strchr(p, '\t'); if (!t) break; *t = 0; p = t + 1; }
+    while (nf < 10) { fields[nf++] = p; char *t = strchr(p, '\t'); if (!t) break; *t = 0; p = t + 1; }
     if (nf < 9) continue;
+    wdelay_ms = nf >= 10 ? atol(fields[9]) : 0;
     /* announce the case before running it: a sanitizer abort still leaves the witness */
     printf("BEGIN\t%s\n", fields[0]); fflush(stdout);
     struct pam_handle ph; memset(&ph, 0, sizeof(ph));
